@@ -7,7 +7,7 @@
    held (vm_runs_z: ScopeEnds). *)
 From Coq Require Import String Ascii.
 From Coq Require Import ZArith List Bool Lia.
-From SqfVerif Require Import Gen.DiagCodes Gen.Overloads VM.VmDefs VM.VmExec VM.RefSem VM.C02Proofs VM.SimDefs VM.SimProofs VM.SimBlock VM.SimCtl VM.SimThrowOps VM.SimBreakOps.
+From SqfVerif Require Import Gen.DiagCodes Gen.Overloads VM.VmDefs VM.VmExec VM.RefSem VM.C02Proofs VM.SimDefs VM.SimProofs VM.SimBlock VM.SimCtl VM.SimThrowOps VM.SimBreakOps VM.SimSwitchOps.
 Import ListNotations.
 Local Open Scope string_scope.
 Local Open Scope list_scope.
@@ -88,6 +88,29 @@ Definition top_name (s:sstate) : string := match st_scopes s with sc :: _ => sc_
 Fixpoint find_name (t:string) (l:list scope) (k:nat) : option nat :=
   match l with [] => None | sc :: r => if String.eqb (sc_name sc) t then Some k else find_name t r (S k) end.
 
+(* switch: the bookkeeping of the reference semantics (RefSem.swst) and how the statements of a switch body change it: a label
+   `case x` remembers that it matched (fall-through), `case x : {..}` chooses its block when it or a label in front of it matched and
+   no block has been chosen yet - the rest of the body is then skipped -, `default {..}` offers its block for the case that nothing
+   is chosen.  The case values are pure expressions (relation pev: literals, variables holding data, pure operators). *)
+Definition sw_see (sw:swst) (v:rvalue) : swst :=
+  {| sw_v := sw_v sw; sw_target := sw_target sw; sw_now := if req true v (sw_v sw) then true else sw_now sw; sw_has := sw_has sw |}.
+Definition sw_hit (sw:swst) (blk:list stmt) : swst := {| sw_v := sw_v sw; sw_target := Some blk; sw_now := false; sw_has := true |}.
+Definition sw_dflt (sw:swst) (blk:list stmt) : swst :=
+  {| sw_v := sw_v sw; sw_target := if sw_has sw then sw_target sw else Some blk; sw_now := sw_now sw; sw_has := sw_has sw |}.
+Definition sw_start (v:rvalue) : swst := {| sw_v := v; sw_target := None; sw_now := false; sw_has := false |}.
+Inductive zswitch (s:sstate) : list stmt -> swst -> swst -> Prop :=
+| ZWNil sw : zswitch s [] sw sw
+| ZWLabel n x v st2 rest sw sw' : lower n = "case" -> pev (loc_of s) (glob_of s) x v ->
+    zswitch s (st2 :: rest) (sw_see sw v) sw' -> zswitch s (SExpr (EUnary n x) :: st2 :: rest) sw sw'
+| ZWCaseSkip c k x blk v rest sw sw' : lower c = ":" -> lower k = "case" -> pev (loc_of s) (glob_of s) x v ->
+    andb (negb (sw_has sw)) (sw_now (sw_see sw v)) = false -> zswitch s rest (sw_see sw v) sw' ->
+    zswitch s (SExpr (EBinary c (EUnary k x) (ECode blk)) :: rest) sw sw'
+| ZWCaseHit c k x blk v rest sw : lower c = ":" -> lower k = "case" -> pev (loc_of s) (glob_of s) x v ->
+    andb (negb (sw_has sw)) (sw_now (sw_see sw v)) = true ->
+    zswitch s (SExpr (EBinary c (EUnary k x) (ECode blk)) :: rest) sw (sw_hit sw blk)
+| ZWDefault n blk rest sw sw' : lower n = "default" -> zswitch s rest (sw_dflt sw blk) sw' ->
+    zswitch s (SExpr (EUnary n (ECode blk)) :: rest) sw sw'.
+
 (* the first instruction of a (non-empty) block is a plain push or a variable read: true of every block whose first
    statement does not start with a nular operator; the step that takes a loop round again executes it *)
 Definition leaf_first (b:list stmt) : Prop :=
@@ -95,7 +118,7 @@ Definition leaf_first (b:list stmt) : Prop :=
 
 Inductive zev : sstate -> expr -> rvalue -> sstate -> Prop :=
 | ZPure s e v : pev (loc_of s) (glob_of s) e v -> zev s e v s
-| ZVarL s n v : is_local n = true -> loc_of s (lower n) = Some v -> nonnil v -> zev s (EVar n) v s
+| ZVarL s n v : is_local n = true -> hidden (lower n) = false -> loc_of s (lower n) = Some v -> nonnil v -> zev s (EVar n) v s
 | ZVarG s n v : is_local n = false -> glob_of s (lower n) = Some v -> nonnil v -> zev s (EVar n) v s
 | ZCode s b : zev s (ECode b) (RCode b) s
 | ZArr s l vs s' : zevs s l vs s' -> zev s (EArr l) (RArr vs) s'
@@ -155,7 +178,8 @@ Inductive zev : sstate -> expr -> rvalue -> sstate -> Prop :=
     rns_get s2 ns x = None -> zev s (EBinary n a b) RNil s2
 | ZSetVar s n a b ns x v s1 s2 : lower n = "setvariable" -> zev s a (RNs ns) s1 -> zev s1 b (RArr [RStr x; v]) s2 ->
     zev s (EBinary n a b) RNil (rns_set s2 ns x v)
-| ZPrivate s n a x s1 : lower n = "private" -> (forall k, a <> ENum k) -> zev s a (RStr x) s1 -> zev s (EUnary n a) RNil (declare s1 x)
+| ZPrivate s n a x s1 : lower n = "private" -> (forall k, a <> ENum k) -> zev s a (RStr x) s1 -> hidden (lower x) = false ->
+    zev s (EUnary n a) RNil (declare s1 x)
 (* try {..} catch {..}: the block runs in a scope of its own; when it is left by a throw (relation zthrow below) the handler runs in
    that scope, emptied, with _exception bound, and its value is the value of the construct *)
 | ZTryVal s n a b s1 : lower n = "try" -> (forall k, a <> ENum k) -> zev s a (RCode b) s1 -> zev s (EUnary n a) (RTry b) s1
@@ -175,12 +199,21 @@ Inductive zev : sstate -> expr -> rvalue -> sstate -> Prop :=
     zbreak (enter s2 []) RNil blk t v s3 -> top_name s3 = t -> zev s (EBinary n a b) v (pop_scope s3)
 | ZThenElseBreak s n a b c x0 y0 s1 s2 t v s3 : lower n = "then" -> zev s a (RIf c) s1 -> zev s1 b (RArr [RCode x0; RCode y0]) s2 ->
     zbreak (enter s2 []) RNil (if c then x0 else y0) t v s3 -> top_name s3 = t -> zev s (EBinary n a b) v (pop_scope s3)
+(* switch v do {..}: the statements of the body are judged in a scope of their own (zswitch above); then the chosen block, if there is
+   one, runs in that scope and its value is the value of the construct *)
+| ZSwitchVal s n a v s1 : lower n = "switch" -> (forall k, a <> ENum k) -> zev s a v s1 -> nonnil v -> zev s (EUnary n a) (RSwitch v) s1
+| ZSwitchNone s n a b v body s1 s2 sw : lower n = "do" -> zev s a (RSwitch v) s1 -> zev s1 b (RCode body) s2 ->
+    zswitch (enter s2 []) body (sw_start v) sw -> (sw_target sw = None \/ sw_target sw = Some []) ->
+    zev s (EBinary n a b) RNil s2
+| ZSwitchRun s n a b v body s1 s2 sw t ts reg s4 : lower n = "do" -> zev s a (RSwitch v) s1 -> zev s1 b (RCode body) s2 ->
+    zswitch (enter s2 []) body (sw_start v) sw -> sw_target sw = Some (t :: ts) -> leaf_first (t :: ts) ->
+    zblock (enter s2 []) RNil (t :: ts) (BNorm reg) s4 -> zev s (EBinary n a b) (res_of reg) (pop_scope s4)
 with zevs : sstate -> list expr -> list rvalue -> sstate -> Prop :=
 | ZNil s : zevs s [] [] s
 | ZCons s e v s1 l vs s2 : zev s e v s1 -> nonnil v -> zevs s1 l vs s2 -> zevs s (e :: l) (v :: vs) s2
 with zstmt : sstate -> rvalue -> stmt -> rvalue -> sstate -> Prop :=
 | ZSExprV s reg e v s1 : zev s e v s1 -> zstmt s reg (SExpr e) v s1
-| ZSAssign s reg n e v s1 : n <> "" -> zev s e v s1 -> nonnil v ->
+| ZSAssign s reg n e v s1 : n <> "" -> hidden (lower n) = false -> zev s e v s1 -> nonnil v ->
     zstmt s reg (SAssign n e) reg (if is_local n then assign_local s1 n v else rns_set s1 (cur_ns_of s1) n v)
 | ZSLocal s reg n e v s1 : n <> "" -> zev s e v s1 -> nonnil v -> zstmt s reg (SLocal n e) reg (bind_here s1 n v)
 with zblock : sstate -> rvalue -> list stmt -> bout -> sstate -> Prop :=
@@ -207,11 +240,11 @@ with ziter : lkind -> sstate -> list rvalue -> nat -> list stmt -> rvalue -> rva
 with zfor : string -> Z -> Z -> sstate -> Z -> bool -> list stmt -> rvalue -> sstate -> Prop :=
 | ZForRound var to st s x (first:bool) body reg s1 y acc' s' :
     zblock (enter s [(lower var, RNum x)]) (if first then RNil else RNone) body (BNorm reg) s1 ->
-    top_var s1 (lower var) = Some (RNum y) -> beyond to st (y + st)%Z = false ->
+    hidden (lower var) = false -> top_var s1 (lower var) = Some (RNum y) -> beyond to st (y + st)%Z = false ->
     zfor var to st (pop_scope s1) (y + st)%Z false body acc' s' -> zfor var to st s x first body acc' s'
 | ZForLast var to st s x (first:bool) body reg s1 y :
     zblock (enter s [(lower var, RNum x)]) (if first then RNil else RNone) body (BNorm reg) s1 ->
-    top_var s1 (lower var) = Some (RNum y) -> beyond to st (y + st)%Z = true ->
+    hidden (lower var) = false -> top_var s1 (lower var) = Some (RNum y) -> beyond to st (y + st)%Z = true ->
     zfor var to st s x first body (res_of reg) (pop_scope s1)
 | ZForExit var to st s x (first:bool) body v s1 :
     zblock (enter s [(lower var, RNum x)]) (if first then RNil else RNone) body (BExit v) s1 ->
@@ -1001,12 +1034,12 @@ Proof.
 Qed.
 
 (* private "x": the frame gets the name the scope gets *)
-Lemma match_declare s r c f rest x : c_frames c = f :: rest -> Match s r (f :: rest) ->
+Lemma match_declare s r c f rest x : hidden (lower x) = false -> c_frames c = f :: rest -> Match s r (f :: rest) ->
   exists f', c_frames (declare_top_var c x) = f' :: rest /\ Match (declare s x) r (f' :: rest) /\ kept f f' /\
              c_values (declare_top_var c x) = c_values c /\ c_suspended (declare_top_var c x) = c_suspended c.
 Proof.
-  intros EF [F N]. inversion F as [|sc f0 scs fs (V & NS & BB) F' E1 E2]; subst.
-  unfold declare_top_var, upd_top, declare. rewrite EF, <- E1. rewrite (V (lower x)).
+  intros HH EF [F N]. inversion F as [|sc f0 scs fs (V & NS & BB) F' E1 E2]; subst.
+  unfold declare_top_var, upd_top, declare. rewrite EF, <- E1. rewrite (V (lower x) HH).
   destruct (assoc (lower x) (sc_vars sc)) as [w|] eqn:EA; cbn [option_map].
   - exists f. split; [reflexivity|]. split; [|split; [apply kept_refl|split; reflexivity]].
     split; [rewrite <- E1; constructor; [split; [exact V|split; assumption]|exact F']|exact N].
@@ -1286,6 +1319,428 @@ Proof.
   split; [exact V|split; [exact NS|split; [exact BB|reflexivity]]].
 Qed.
 
+(* ---------------------------------------------------------------- switch: what its frame does when the body's statements are done *)
+(* the body's statements are done: the frame stands at the end of its code, or behind it (a chosen case skipped the rest) *)
+Definition sw_done (f:frame) : Prop := f_pos f = length (f_code f) \/ f_pos f = S (length (f_code f)).
+Definition sw_end (f:frame) : frame := set_pos f (S (length (f_code f))).
+Lemma sw_first_stage f : sw_done f ->
+  (if at_end f then (FDone, f) else ((if at_end (set_pos f (S (f_pos f))) then FDone else FOk), set_pos f (S (f_pos f)))) = (FDone, sw_end f).
+Proof.
+  unfold sw_done, sw_end, at_end. intros [P|P].
+  - destruct (Nat.eqb_spec (f_pos f) (S (length (f_code f)))) as [E|_]; [lia|]. cbn [f_pos f_code set_pos]. rewrite P, Nat.eqb_refl. reflexivity.
+  - rewrite P, Nat.eqb_refl. f_equal. rewrite <- P. destruct f; reflexivity.
+Qed.
+
+(* no block to run (none chosen, or the chosen one has run): the frame completes with the top of its part of the stack *)
+Lemma sw_complete r c f fc rest sb top2 vals :
+  Good r c -> quirks r = ([], 0) -> c_frames c = f :: fc :: rest -> sw_done f ->
+  f_exit f = Some (BSwitch sb) -> f_die f = false ->
+  (sb = true \/ exists a n h, assoc "___switch" (f_vars f) = Some (VSwitch a [] n h)) ->
+  c_values c = top2 ++ vals -> length vals = f_base f ->
+  let c4 := set_values (set_frames c (fc :: rest)) (match top2 with [] => VNil | x :: _ => x end :: vals) in
+  Steps r (upd_cur r c4) /\ Good (upd_cur r c4) c4.
+Proof.
+  intros G D EF DN EX ED DONE EV LB c4. pose proof G as (C & X & St & E & M & MR & SU).
+  split; [|apply (good_upd r c c4 G); exact SU].
+  apply steps_cont_upd.
+  unfold do_iter. rewrite X, C, SU, EF, St.
+  destruct frame_fuel_S as [k Hk]. rewrite Hk. cbn [frame_next]. rewrite EF, (sw_first_stage f DN).
+  assert (AE : at_end (sw_end f) = true) by (unfold at_end, sw_end; cbn; apply Nat.eqb_refl).
+  cbn [f_exit sw_end set_pos f_die]. rewrite EX, ED. fold (sw_end f). rewrite AE. cbn [andb negb].
+  assert (HE : exists b', enact (BSwitch sb) r (set_frames c (sw_end f :: fc :: rest)) = Ok (BrOk, b', r, set_frames c (sw_end f :: fc :: rest))).
+  { cbn [enact]. destruct DONE as [->|(a & n & h & A)]; [eexists; reflexivity|].
+    destruct sb; [eexists; reflexivity|]. cbn [c_frames set_frames sw_end f_vars set_pos]. rewrite A. eexists; reflexivity. }
+  destruct HE as [b' HE]. rewrite HE. cbn [bindr]. rewrite E.
+  unfold upd_top. cbn [c_frames set_frames set_values length]. rewrite Nat.eqb_refl.
+  unfold defect. rewrite (quirks_defects _ D). cbn [existsb].
+  match goal with |- context [pop_value ?x] => set (c1 := x) end.
+  destruct top2 as [|x top2].
+  - cbn [app] in EV.
+    assert (P : pop_value c1 = None).
+    { unfold pop_value. cbn [c_values c1 set_frames set_values c_frames f_base set_pos set_exit sw_end]. rewrite EV. destruct vals as [|v0 vals0]; [reflexivity|].
+      destruct (Nat.leb_spec (length (v0 :: vals0)) (f_base f)) as [L|L]; [reflexivity|lia]. }
+    rewrite P. unfold clear_values, pop_frame. cbn [c_frames c1 set_frames c_values f_base set_pos set_exit tl set_values sw_end].
+    rewrite EV, LB, Nat.sub_diag. cbn [skipn]. unfold push_value. subst c4. cbn. rewrite ?EV. reflexivity.
+  - cbn [app] in EV.
+    assert (P : pop_value c1 = Some (x, set_values c1 (top2 ++ vals))).
+    { apply (pop_value_top c1 (set_exit (sw_end f) (Some b')) (fc :: rest)); [reflexivity|exact EV|cbn; rewrite app_length; lia]. }
+    rewrite P. unfold clear_values, pop_frame. cbn [c_frames c1 set_frames c_values f_base set_pos set_exit tl set_values sw_end].
+    rewrite app_length, <- LB. replace (length top2 + length vals - length vals) with (length top2) by lia.
+    rewrite skipn_app, skipn_all, Nat.sub_diag. cbn [skipn app]. unfold push_value. subst c4. cbn. reflexivity.
+Qed.
+
+(* a block has been chosen: its instructions are put into the frame (position 0, the behaviour remembers that it has switched; the
+   variables and the operand stack stay), and the same pass executes the block's first instruction *)
+Definition sw_frame (f:frame) (tgt:list instr) : frame := set_pos (set_code (set_exit (sw_end f) (Some (BSwitch true))) tgt) 0.
+
+Lemma sw_step_real r c f rest0 a i0 code' n h r3 c5 :
+  Good r c -> c_frames c = f :: rest0 -> sw_done f -> f_exit f = Some (BSwitch false) -> f_die f = false ->
+  assoc "___switch" (f_vars f) = Some (VSwitch a (i0 :: code') n h) ->
+  exec_instr i0 r (set_frames c (set_pos (sw_frame f (i0 :: code')) 1 :: rest0)) = Ok (r3, c5) ->
+  r_err (upd_cur r3 c5) = false ->
+  do_iter r = Ok (Executed (set_msgs (upd_cur r3 c5) [])).
+Proof.
+  intros G EF DN EX ED A EI NErr. pose proof G as (C & X & St & E & M & MR & SU).
+  unfold do_iter. rewrite X, C, SU, EF, St.
+  destruct frame_fuel_SS as [k Hk]. rewrite Hk.
+  cbn [frame_next]. rewrite EF, (sw_first_stage f DN).
+  assert (AE : at_end (sw_end f) = true) by (unfold at_end, sw_end; cbn; apply Nat.eqb_refl).
+  cbn [f_exit sw_end set_pos f_die]. rewrite EX, ED. fold (sw_end f). rewrite AE. cbn [andb negb].
+  cbn [enact c_frames set_frames sw_end f_vars set_pos]. rewrite A. cbn [bindr].
+  unfold upd_top. cbn [c_frames set_frames].
+  fold (sw_frame f (i0 :: code')).
+  assert (B1 : at_end (sw_frame f (i0 :: code')) = false) by (unfold at_end; reflexivity).
+  assert (B2 : at_end (set_pos (sw_frame f (i0 :: code')) (S (f_pos (sw_frame f (i0 :: code'))))) = false) by (unfold at_end; reflexivity).
+  rewrite B1, B2. cbn [f_exit set_pos sw_frame set_exit set_code andb bindr]. rewrite E.
+  unfold current_instr. cbn [c_frames set_frames f_code f_pos set_pos set_exit set_code sw_frame Nat.sub].
+  cbn [nth_error]. rewrite MR. cbn [Z.eqb].
+  match goal with |- context [exec_instr i0 r ?x] => replace x with (set_frames c (set_pos (sw_frame f (i0 :: code')) 1 :: rest0)) by (destruct c; reflexivity) end.
+  rewrite EI. cbn [bindr]. rewrite NErr. reflexivity.
+Qed.
+
+Lemma sw_back r c f rest0 a i0 code' n h :
+  Good r c -> c_frames c = f :: rest0 -> sw_done f -> f_exit f = Some (BSwitch false) -> f_die f = false ->
+  ((exists v, i0 = IPush v) \/ (exists x, i0 = IGet x)) ->
+  assoc "___switch" (f_vars f) = Some (VSwitch a (i0 :: code') n h) ->
+  do_iter r = do_iter (upd_cur r (set_frames c (sw_frame f (i0 :: code') :: rest0))).
+Proof.
+  intros G EF DN EX ED LF A. pose proof G as (C & X & St & E & M & MR & SU).
+  set (fV := sw_frame f (i0 :: code')). set (cV := set_frames c (fV :: rest0)).
+  assert (GV : Good (upd_cur r cV) cV) by (apply (good_upd r c cV G); exact SU).
+  set (cin := set_frames c (set_pos fV 1 :: rest0)).
+  assert (NV : nth_error (f_code fV) (f_pos fV) = Some i0) by reflexivity.
+  assert (EVr : forall r3 c5, exec_instr i0 (upd_cur r cV) cin = Ok (r3, c5) -> r_err (upd_cur r3 c5) = false ->
+            do_iter (upd_cur r cV) = Ok (Executed (set_msgs (upd_cur r3 c5) []))).
+  { intros r3 c5 H1 H2. apply (step_instr (upd_cur r cV) cV fV rest0 i0 r3 c5 GV eq_refl NV); [|exact H2].
+    replace (set_frames cV (set_pos fV (S (f_pos fV)) :: rest0)) with cin by (unfold cin, cV; destruct c; reflexivity). exact H1. }
+  assert (ERr : forall r3 c5, exec_instr i0 r cin = Ok (r3, c5) -> r_err (upd_cur r3 c5) = false ->
+            do_iter r = Ok (Executed (set_msgs (upd_cur r3 c5) []))).
+  { intros r3 c5 H1 H2. eapply sw_step_real; eauto. }
+  destruct LF as [[v ->]|[x ->]].
+  - rewrite (ERr r (push_value cin v)); [|reflexivity|rewrite err_upd_cur; exact E].
+    rewrite (EVr (upd_cur r cV) (push_value cin v)); [|reflexivity|rewrite !err_upd_cur; exact E].
+    rewrite upd_cur_twice. reflexivity.
+  - cbn [exec_instr] in EVr, ERr. destruct (is_local x).
+    + destruct (get_variable cin x) as [v|].
+      * rewrite (ERr r (push_value cin v)); [|reflexivity|rewrite err_upd_cur; exact E].
+        rewrite (EVr (upd_cur r cV) (push_value cin v)); [|reflexivity|rewrite !err_upd_cur; exact E].
+        rewrite upd_cur_twice. reflexivity.
+      * rewrite (ERr _ _ eq_refl); [|rewrite err_logmsg_warn; exact E].
+        rewrite (EVr _ _ eq_refl); [|rewrite err_logmsg_warn, err_upd_cur; exact E].
+        rewrite logmsg_upd_cur, upd_cur_twice. reflexivity.
+    + cbn [c_frames cin set_values set_frames] in EVr, ERr. rewrite ns_get_upd_cur in EVr.
+      destruct (ns_get r (f_ns (set_pos fV 1)) x) as [v|].
+      * rewrite (ERr r (push_value cin v)); [|reflexivity|rewrite err_upd_cur; exact E].
+        rewrite (EVr (upd_cur r cV) (push_value cin v)); [|reflexivity|rewrite !err_upd_cur; exact E].
+        rewrite upd_cur_twice. reflexivity.
+      * rewrite (ERr _ _ eq_refl); [|rewrite err_logmsg_warn; exact E].
+        rewrite (EVr _ _ eq_refl); [|rewrite err_logmsg_warn, err_upd_cur; exact E].
+        rewrite logmsg_upd_cur, upd_cur_twice. reflexivity.
+Qed.
+
+(* ---------------------------------------------------------------- switch: the body's statements on the machine *)
+Definition sw_code (sw:swst) : list instr := match sw_target sw with Some b => compile_block b | None => [] end.
+Definition sw_val (sw:swst) : value := VSwitch (cv (sw_v sw)) (sw_code sw) (sw_now sw) (sw_has sw).
+(* the switch frame's hidden variable holds the bookkeeping *)
+Definition SwInv (sw:swst) (f:frame) : Prop := assoc "___switch" (f_vars f) = Some (sw_val sw).
+
+Lemma sw_val_see sw v : sw_val (sw_see sw v) = VSwitch (cv (sw_v sw)) (sw_code sw) (if veqb true (cv v) (cv (sw_v sw)) then true else sw_now sw) (sw_has sw).
+Proof. unfold sw_val, sw_see, sw_code. cbn [sw_v sw_target sw_now sw_has]. rewrite veqb_cv. reflexivity. Qed.
+
+Lemma mach_adv s r c f rest k vs : Mach s r c f rest -> Mach s (upd_cur r (adv c f rest k vs)) (adv c f rest k vs) (set_pos f (f_pos f + k)) rest.
+Proof.
+  intros (G & EF & M & B & D). split; [apply good_adv; exact G|]. split; [reflexivity|]. split; [apply match_upd, match_set_pos; exact M|].
+  split; [unfold adv; cbn [c_values set_values f_base set_pos]; rewrite app_length; lia|rewrite quirks_upd_cur; exact D].
+Qed.
+
+Lemma pure_post s e v r c f rest pre post : pev (loc_of s) (glob_of s) e v -> Mach s r c f rest ->
+  f_code f = pre ++ compile_expr e ++ post -> f_pos f = length pre ->
+  exists r' c', Steps r r' /\ Mach s r' c' (set_pos f (f_pos f + length (compile_expr e))) rest /\
+    c_values c' = cv v :: c_values c /\ cv v <> VNil.
+Proof.
+  intros HE MA EC EP. pose proof MA as (G & EF & M & B & D).
+  destruct (proj1 (pure_sim _ _) e v HE r c f rest pre post G EF EC EP B (env_ok_of s r f rest M)) as [S1 NV].
+  eexists _, _. split; [exact S1|]. split; [apply mach_adv; exact MA|split; [reflexivity|exact NV]].
+Qed.
+
+Lemma mach_push s r c f rest pre post v : Mach s r c f rest -> f_code f = pre ++ IPush v :: post -> f_pos f = length pre ->
+  exists r' c', Steps r r' /\ Mach s r' c' (set_pos f (f_pos f + 1)) rest /\ c_values c' = v :: c_values c.
+Proof.
+  intros MA EC EP. pose proof MA as (G & EF & M & B & D).
+  pose proof (run_push r c f rest pre post (IPush v) v G EF EC EP (fun c1 F1 => eq_refl)) as S1.
+  eexists _, _. split; [exact S1|]. split; [apply mach_adv; exact MA|reflexivity].
+Qed.
+
+Lemma end_mach s r c f rest below pre post top : Mach s r c f rest -> c_values c = top ++ below -> length below = f_base f ->
+  f_code f = pre ++ IEnd :: post -> f_pos f = length pre ->
+  exists r' c', Steps r r' /\ Mach s r' c' (set_pos f (S (f_pos f))) rest /\ c_values c' = below.
+Proof.
+  intros (G & EF & M & B & D) EV LB EC EP.
+  assert (N : nth_error (f_code f) (f_pos f) = Some IEnd) by (rewrite EC, EP; apply nth_error_mid).
+  set (c1 := set_frames c (set_pos f (S (f_pos f)) :: rest)).
+  assert (EX : exec_instr IEnd r c1 = Ok (r, set_values c1 below)).
+  { cbn [exec_instr]. unfold clear_values. cbn [c_frames c1 set_frames set_pos f_base c_values]. rewrite EV, app_length, <- LB.
+    replace (length top + length below - length below) with (length top) by lia. rewrite skipn_app, skipn_all, Nat.sub_diag. reflexivity. }
+  destruct (run_one r c f rest IEnd _ G EF N EX) as [S1 G1].
+  { destruct G as (_ & _ & _ & _ & _ & _ & SU). exact SU. }
+  exists (upd_cur r (set_values c1 below)), (set_values c1 below). split; [exact S1|]. split; [|reflexivity].
+  split; [exact G1|]. split; [reflexivity|]. split; [apply match_upd, match_set_pos; exact M|].
+  split; [cbn; lia|rewrite quirks_upd_cur; exact D].
+Qed.
+
+(* an operator that rewrites the running frame (its hidden variable, its position) and leaves a value *)
+Lemma mach_unary s r c f rest pre post n' w vals f3 y :
+  Mach s r c f rest -> f_code f = pre ++ IUnary n' :: post -> f_pos f = length pre -> c_values c = w :: vals ->
+  f_base f <= length vals -> w <> VNil ->
+  op_unary (lower n') w r (set_values (set_frames c (set_pos f (S (f_pos f)) :: rest)) vals) =
+    Ok (r, set_frames (set_values (set_frames c (set_pos f (S (f_pos f)) :: rest)) vals) (f3 :: rest), y) ->
+  Match s r (f3 :: rest) -> f_base f3 = f_base f ->
+  exists r' c', Steps r r' /\ Mach s r' c' f3 rest /\ c_values c' = y :: vals.
+Proof.
+  intros (G & EF & M & B & D) EC EP EV BV NW OP M3 B3.
+  destruct (unary_run r c f rest pre post n' w vals _ y G EF EC EP EV BV NW OP) as [S1 G1].
+  { destruct G as (_ & _ & _ & _ & _ & _ & SU). exact SU. }
+  match type of G1 with Good _ ?x => exists (upd_cur r x), x end. split; [exact S1|]. split; [|reflexivity].
+  split; [exact G1|]. split; [reflexivity|]. split; [apply match_upd; exact M3|]. split; [cbn; rewrite B3; lia|rewrite quirks_upd_cur; exact D].
+Qed.
+Lemma mach_binary s r c f rest pre post n' l w vals f3 y :
+  Mach s r c f rest -> f_code f = pre ++ IBinary n' :: post -> f_pos f = length pre -> c_values c = w :: l :: vals ->
+  f_base f <= length vals -> w <> VNil -> l <> VNil ->
+  op_binary (lower n') l w r (set_values (set_frames c (set_pos f (S (f_pos f)) :: rest)) vals) =
+    Ok (r, set_frames (set_values (set_frames c (set_pos f (S (f_pos f)) :: rest)) vals) (f3 :: rest), y) ->
+  Match s r (f3 :: rest) -> f_base f3 = f_base f ->
+  exists r' c', Steps r r' /\ Mach s r' c' f3 rest /\ c_values c' = y :: vals.
+Proof.
+  intros (G & EF & M & B & D) EC EP EV BV NW NL OP M3 B3.
+  destruct (binary_run r c f rest pre post n' l w vals _ y G EF EC EP EV BV NW NL OP) as [S1 G1].
+  { destruct G as (_ & _ & _ & _ & _ & _ & SU). exact SU. }
+  match type of G1 with Good _ ?x => exists (upd_cur r x), x end. split; [exact S1|]. split; [|reflexivity].
+  split; [exact G1|]. split; [reflexivity|]. split; [apply match_upd; exact M3|]. split; [cbn; rewrite B3; lia|rewrite quirks_upd_cur; exact D].
+Qed.
+
+(* the separator in front of a statement that is not the first one: the region is cleared *)
+Lemma sw_sep s r c f rest below pre (first:bool) (tail:list instr) :
+  Mach s r c f rest -> length below = f_base f -> Fresh c below ->
+  f_code f = pre ++ (if first then [] else [IEnd]) ++ tail -> f_pos f = length pre ->
+  exists r1 c1 p1, Steps r r1 /\ Mach s r1 c1 (set_pos f p1) rest /\ Fresh c1 below /\
+     f_code f = (pre ++ (if first then [] else [IEnd])) ++ tail /\ p1 = length (pre ++ (if first then [] else [IEnd])).
+Proof.
+  intros MA LB (t & EV & UT) EC EP. destruct first; cbn [app] in *.
+  - exists r, c, (f_pos f). split; [apply StepsRefl|]. split; [replace (set_pos f (f_pos f)) with f by (destruct f; reflexivity); exact MA|].
+    split; [exists t; split; assumption|]. rewrite app_nil_r. split; [exact EC|exact EP].
+  - destruct (end_mach s r c f rest below pre tail t MA EV LB EC EP) as (r1 & c1 & S1 & M1 & EV1).
+    exists r1, c1, (S (f_pos f)). split; [exact S1|]. split; [exact M1|]. split; [apply fresh_nil; exact EV1|].
+    rewrite <- app_assoc. split; [exact EC|]. rewrite app_length, EP. cbn. lia.
+Qed.
+
+(* an operator name that is not a sign: its operand is compiled as it stands, also when it is a number *)
+Lemma compile_unary_case n x : lower n = "case" -> compile_expr (EUnary n x) = compile_expr x ++ [IUnary (lower n)].
+Proof.
+  intros HN. cbn [compile_expr].
+  assert (N1 : String.eqb n "-" = false) by (destruct (String.eqb_spec n "-") as [->|]; [discriminate HN|reflexivity]).
+  assert (N2 : String.eqb n "+" = false) by (destruct (String.eqb_spec n "+") as [->|]; [discriminate HN|reflexivity]).
+  rewrite N1, N2. destruct x; reflexivity.
+Qed.
+Lemma compile_stmt_unary n x : lower n = "case" -> compile_stmt (SExpr (EUnary n x)) = compile_expr x ++ [IUnary (lower n)].
+Proof. intros HN. cbn [compile_stmt]. apply compile_unary_case. exact HN. Qed.
+Lemma compile_stmt_colon c k x blk : lower k = "case" ->
+  compile_stmt (SExpr (EBinary c (EUnary k x) (ECode blk))) = compile_expr x ++ [IUnary (lower k); IPush (VCode (compile_block blk)); IBinary (lower c)].
+Proof. intros HK. cbn [compile_stmt]. rewrite compile_binary, (compile_unary_case k x HK), compile_code, <- app_assoc. reflexivity. Qed.
+Lemma compile_stmt_default n blk : compile_stmt (SExpr (EUnary n (ECode blk))) = [IPush (VCode (compile_block blk)); IUnary (lower n)].
+Proof. cbn [compile_stmt]. rewrite compile_unary_nonlit by (intros ? ?; discriminate). rewrite compile_code. reflexivity. Qed.
+
+Lemma fresh_cons c c1 below : Fresh c1 below -> c_values c = VNil :: c_values c1 -> Fresh c below.
+Proof. intros (t & EV & UT) E. exists (VNil :: t). split; [rewrite E, EV; reflexivity|constructor; [reflexivity|exact UT]]. Qed.
+
+(* the statements of a switch body, from a statement boundary: the bookkeeping in the hidden variable follows the reference
+   semantics; at the end the frame stands at the end of its code - behind it when a block was chosen, which skips the rest *)
+Lemma switch_body_vm s body sw sw' : zswitch s body sw sw' ->
+  forall r c f rest below pre (first:bool), Mach s r c f rest -> length below = f_base f -> Fresh c below ->
+    f_code f = pre ++ compile_block_from first body -> f_pos f = length pre -> SwInv sw f ->
+    exists r' c' f', Steps r r' /\ Mach s r' c' f' rest /\ Fresh c' below /\
+      (body <> [] -> exists t, c_values c' = VNil :: t ++ below) /\ (body = [] -> c_values c' = c_values c) /\
+      moved f f' /\ SwInv sw' f' /\ (f_pos f' = length (f_code f') \/ f_pos f' = S (length (f_code f'))).
+Proof.
+  induction 1 as [sw|n x v st2 rest0 sw sw' HN HX HR IH|cc k x blk v rest0 sw sw' HC HK HX HD HR IH|cc k x blk v rest0 sw HC HK HX HD|n blk rest0 sw sw' HN HR IH];
+    intros r c f rest below pre first MA LB FR EC EP SI.
+  - (* end of the body *)
+    exists r, c, f. split; [apply StepsRefl|]. split; [exact MA|]. split; [exact FR|]. split; [intros N; contradiction|]. split; [reflexivity|].
+    split; [apply moved_refl|]. split; [exact SI|]. left. cbn [compile_block_from] in EC. rewrite app_nil_r in EC. rewrite EP, EC. reflexivity.
+  - (* a label: case x; *)
+    assert (EC' : f_code f = pre ++ (if first then [] else [IEnd]) ++ (compile_expr x ++ [IUnary (lower n)] ++ [IEnd] ++ compile_stmt st2 ++ compile_block_from false rest0)).
+    { rewrite EC, compile_block_from_cons, (compile_stmt_unary n x HN), compile_block_from_cons, <- !app_assoc. reflexivity. }
+    clear EC. rename EC' into EC.
+    destruct (sw_sep s r c f rest below pre first (compile_expr x ++ [IUnary (lower n)] ++ [IEnd] ++ compile_stmt st2 ++ compile_block_from false rest0) MA LB FR EC EP) as (r1 & c1 & p1 & S1 & M1 & FR1 & EC1 & EP1).
+    set (f1 := set_pos f p1) in *.
+    destruct (pure_post s x v r1 c1 f1 rest (pre ++ (if first then [] else [IEnd])) ([IUnary (lower n)] ++ [IEnd] ++ compile_stmt st2 ++ compile_block_from false rest0) HX M1) as (r2 & c2 & S2 & M2 & EV2 & NV2).
+    { cbn [f1 f_code set_pos]. rewrite EC. rewrite <- !app_assoc. reflexivity. } { exact EP1. }
+    set (f2 := set_pos f1 (f_pos f1 + length (compile_expr x))) in *.
+    pose proof M1 as (_ & _ & _ & B1 & _). destruct FR1 as (t1 & EV1 & UT1).
+    set (fX := set_pos f2 (S (f_pos f2))).
+    assert (AX : assoc "___switch" (f_vars fX) = Some (VSwitch (cv (sw_v sw)) (sw_code sw) (sw_now sw) (sw_has sw))) by exact SI.
+    set (w1 := VSwitch (cv (sw_v sw)) (sw_code sw) (if veqb true (cv v) (cv (sw_v sw)) then true else sw_now sw) (sw_has sw)).
+    destruct (mach_unary s r2 c2 f2 rest (pre ++ (if first then [] else [IEnd]) ++ compile_expr x) ([IEnd] ++ compile_stmt st2 ++ compile_block_from false rest0) (lower n) (cv v) (c_values c1)
+                (set_sw fX w1) w1 M2) as (r3 & c3 & S3 & M3 & EV3).
+    { cbn [f2 f1 f_code set_pos]. rewrite EC, <- !app_assoc. reflexivity. }
+    { cbn [f2 f1 f_pos set_pos]. rewrite EP1, !app_length. lia. }
+    { exact EV2. } { cbn; exact B1. } { exact NV2. }
+    { rewrite lower_idem, HN. exact (op_case (cv v) r2 (set_values (set_frames c2 (fX :: rest)) (c_values c1)) fX rest _ _ _ _ eq_refl AX). }
+    { apply match_set_sw, match_set_pos. destruct M2 as (_ & _ & MM & _). exact MM. } { reflexivity. }
+    set (f3 := set_sw fX w1) in *.
+    (* the separator of the next statement clears the label's value *)
+    destruct (end_mach s r3 c3 f3 rest below (pre ++ (if first then [] else [IEnd]) ++ compile_expr x ++ [IUnary (lower n)]) (compile_stmt st2 ++ compile_block_from false rest0) (w1 :: t1) M3) as (r4 & c4 & S4 & M4 & EV4).
+    { rewrite EV3, EV1. reflexivity. } { exact LB. }
+    { cbn [f3 fX f2 f1 set_sw f_code set_pos set_vars]. rewrite EC, <- !app_assoc. reflexivity. }
+    { cbn [f3 fX f2 f1 set_sw f_pos set_pos set_vars]. rewrite EP1, !app_length. cbn. lia. }
+    destruct (IH r4 c4 (set_pos f3 (S (f_pos f3))) rest below (pre ++ (if first then [] else [IEnd]) ++ compile_expr x ++ [IUnary (lower n)] ++ [IEnd]) true M4) as (r5 & c5 & f5 & S5 & M5 & FR5 & NE5 & _ & MV5 & SI5 & P5).
+    { exact LB. } { apply fresh_nil; exact EV4. }
+    { cbn [f3 fX f2 f1 set_sw f_code set_pos set_vars]. rewrite EC, compile_block_from_cons, <- !app_assoc. reflexivity. }
+    { cbn [f3 fX f2 f1 set_sw f_pos set_pos set_vars]. rewrite EP1, !app_length. cbn. lia. }
+    { unfold SwInv. cbn [f_vars set_pos]. unfold f3. rewrite sw_after. rewrite sw_val_see. reflexivity. }
+    exists r5, c5, f5. split; [eapply steps_trans; [exact S1|eapply steps_trans; [exact S2|eapply steps_trans; [exact S3|eapply steps_trans; [exact S4|exact S5]]]]|].
+    split; [exact M5|]. split; [exact FR5|]. split; [intros _; apply NE5; discriminate|]. split; [intros N; discriminate N|].
+    split; [|split; [exact SI5|exact P5]].
+    eapply moved_trans; [|exact MV5]. unfold f3, fX, f2, f1, set_sw. destruct f; reflexivity.
+  - (* case x : {..}, not chosen *)
+    assert (EC' : f_code f = pre ++ (if first then [] else [IEnd]) ++ (compile_expr x ++ [IUnary (lower k); IPush (VCode (compile_block blk)); IBinary (lower cc)] ++ compile_block_from false rest0)).
+    { rewrite EC, compile_block_from_cons, (compile_stmt_colon cc k x blk HK), <- !app_assoc. reflexivity. }
+    clear EC. rename EC' into EC.
+    destruct (sw_sep s r c f rest below pre first (compile_expr x ++ [IUnary (lower k); IPush (VCode (compile_block blk)); IBinary (lower cc)] ++ compile_block_from false rest0) MA LB FR EC EP) as (r1 & c1 & p1 & S1 & M1 & FR1 & EC1 & EP1).
+    set (f1 := set_pos f p1) in *.
+    destruct (pure_post s x v r1 c1 f1 rest (pre ++ (if first then [] else [IEnd])) ([IUnary (lower k); IPush (VCode (compile_block blk)); IBinary (lower cc)] ++ compile_block_from false rest0) HX M1) as (r2 & c2 & S2 & M2 & EV2 & NV2).
+    { cbn [f1 f_code set_pos]. rewrite EC. rewrite <- !app_assoc. reflexivity. } { exact EP1. }
+    set (f2 := set_pos f1 (f_pos f1 + length (compile_expr x))) in *.
+    pose proof M1 as (_ & _ & _ & B1 & _). destruct FR1 as (t1 & EV1 & UT1).
+    set (fX := set_pos f2 (S (f_pos f2))).
+    assert (AX : assoc "___switch" (f_vars fX) = Some (VSwitch (cv (sw_v sw)) (sw_code sw) (sw_now sw) (sw_has sw))) by exact SI.
+    set (w1 := VSwitch (cv (sw_v sw)) (sw_code sw) (if veqb true (cv v) (cv (sw_v sw)) then true else sw_now sw) (sw_has sw)).
+    destruct (mach_unary s r2 c2 f2 rest (pre ++ (if first then [] else [IEnd]) ++ compile_expr x) ([IPush (VCode (compile_block blk)); IBinary (lower cc)] ++ compile_block_from false rest0) (lower k) (cv v) (c_values c1)
+                (set_sw fX w1) w1 M2) as (r3 & c3 & S3 & M3 & EV3).
+    { cbn [f2 f1 f_code set_pos]. rewrite EC, <- !app_assoc. reflexivity. }
+    { cbn [f2 f1 f_pos set_pos]. rewrite EP1, !app_length. lia. }
+    { exact EV2. } { cbn; exact B1. } { exact NV2. }
+    { rewrite lower_idem, HK. exact (op_case (cv v) r2 (set_values (set_frames c2 (fX :: rest)) (c_values c1)) fX rest _ _ _ _ eq_refl AX). }
+    { apply match_set_sw, match_set_pos. destruct M2 as (_ & _ & MM & _). exact MM. } { reflexivity. }
+    set (f3 := set_sw fX w1) in *.
+    destruct (mach_push s r3 c3 f3 rest (pre ++ (if first then [] else [IEnd]) ++ compile_expr x ++ [IUnary (lower k)]) ([IBinary (lower cc)] ++ compile_block_from false rest0) (VCode (compile_block blk)) M3) as (r4 & c4 & S4 & M4 & EV4).
+    { cbn [f3 fX f2 f1 set_sw f_code set_pos set_vars]. rewrite EC, <- !app_assoc. reflexivity. }
+    { cbn [f3 fX f2 f1 set_sw f_pos set_pos set_vars]. rewrite EP1, !app_length. cbn. lia. }
+    set (f4 := set_pos f3 (f_pos f3 + 1)) in *.
+    set (fY := set_pos f4 (S (f_pos f4))).
+    assert (AY : assoc "___switch" (f_vars fY) = Some w1) by (cbn [fY f4 f_vars set_pos]; unfold f3; apply sw_after).
+    assert (HD' : andb (negb (sw_has sw)) (if veqb true (cv v) (cv (sw_v sw)) then true else sw_now sw) = false).
+    { rewrite veqb_cv. exact HD. }
+    destruct (mach_binary s r4 c4 f4 rest (pre ++ (if first then [] else [IEnd]) ++ compile_expr x ++ [IUnary (lower k)] ++ [IPush (VCode (compile_block blk))]) (compile_block_from false rest0) (lower cc) w1 (VCode (compile_block blk)) (c_values c1)
+                fY VNil M4) as (r5 & c5 & S5 & M5 & EV5).
+    { cbn [f4 f3 fX f2 f1 set_sw f_code set_pos set_vars]. rewrite EC, <- !app_assoc. reflexivity. }
+    { cbn [f4 f3 fX f2 f1 set_sw f_pos set_pos set_vars]. rewrite EP1, !app_length. cbn. lia. }
+    { rewrite EV4, EV3. reflexivity. } { cbn; exact B1. } { discriminate. } { discriminate. }
+    { rewrite lower_idem, HC. unfold w1 at 1. rewrite (op_colon _ _ _ _ (compile_block blk) r4 (set_values (set_frames c4 (fY :: rest)) (c_values c1)) fY rest _ _ _ _ eq_refl AY). rewrite HD'. reflexivity. }
+    { apply match_set_pos. destruct M4 as (_ & _ & MM & _). exact MM. } { reflexivity. }
+    destruct (IH r5 c5 fY rest below (pre ++ (if first then [] else [IEnd]) ++ compile_expr x ++ [IUnary (lower k); IPush (VCode (compile_block blk)); IBinary (lower cc)]) false M5) as (r6 & c6 & f6 & S6 & M6 & FR6 & NE6 & EQ6 & MV6 & SI6 & P6).
+    { exact LB. } { exists (VNil :: t1). split; [rewrite EV5, EV1; reflexivity|constructor; [reflexivity|exact UT1]]. }
+    { cbn [fY f4 f3 fX f2 f1 set_sw f_code set_pos set_vars]. rewrite EC, <- !app_assoc. reflexivity. }
+    { cbn [fY f4 f3 fX f2 f1 set_sw f_pos set_pos set_vars]. rewrite EP1, !app_length. cbn. lia. }
+    { unfold SwInv. rewrite AY. unfold w1. rewrite sw_val_see. reflexivity. }
+    exists r6, c6, f6. split; [eapply steps_trans; [exact S1|eapply steps_trans; [exact S2|eapply steps_trans; [exact S3|eapply steps_trans; [exact S4|eapply steps_trans; [exact S5|exact S6]]]]]|].
+    split; [exact M6|]. split; [exact FR6|]. split; [|split; [intros N; discriminate N|]].
+    { intros _. destruct rest0 as [|st3 rest3]; [|apply NE6; discriminate]. exists t1. rewrite (EQ6 eq_refl), EV5, EV1. reflexivity. }
+    split; [|split; [exact SI6|exact P6]].
+    eapply moved_trans; [|exact MV6]. unfold fY, f4, f3, fX, f2, f1, set_sw. destruct f; reflexivity.
+  - (* case x : {..}, chosen: the rest of the body is skipped *)
+    assert (EC' : f_code f = pre ++ (if first then [] else [IEnd]) ++ (compile_expr x ++ [IUnary (lower k); IPush (VCode (compile_block blk)); IBinary (lower cc)] ++ compile_block_from false rest0)).
+    { rewrite EC, compile_block_from_cons, (compile_stmt_colon cc k x blk HK), <- !app_assoc. reflexivity. }
+    clear EC. rename EC' into EC.
+    destruct (sw_sep s r c f rest below pre first (compile_expr x ++ [IUnary (lower k); IPush (VCode (compile_block blk)); IBinary (lower cc)] ++ compile_block_from false rest0) MA LB FR EC EP) as (r1 & c1 & p1 & S1 & M1 & FR1 & EC1 & EP1).
+    set (f1 := set_pos f p1) in *.
+    destruct (pure_post s x v r1 c1 f1 rest (pre ++ (if first then [] else [IEnd])) ([IUnary (lower k); IPush (VCode (compile_block blk)); IBinary (lower cc)] ++ compile_block_from false rest0) HX M1) as (r2 & c2 & S2 & M2 & EV2 & NV2).
+    { cbn [f1 f_code set_pos]. rewrite EC. rewrite <- !app_assoc. reflexivity. } { exact EP1. }
+    set (f2 := set_pos f1 (f_pos f1 + length (compile_expr x))) in *.
+    pose proof M1 as (_ & _ & _ & B1 & _). destruct FR1 as (t1 & EV1 & UT1).
+    set (fX := set_pos f2 (S (f_pos f2))).
+    assert (AX : assoc "___switch" (f_vars fX) = Some (VSwitch (cv (sw_v sw)) (sw_code sw) (sw_now sw) (sw_has sw))) by exact SI.
+    set (w1 := VSwitch (cv (sw_v sw)) (sw_code sw) (if veqb true (cv v) (cv (sw_v sw)) then true else sw_now sw) (sw_has sw)).
+    destruct (mach_unary s r2 c2 f2 rest (pre ++ (if first then [] else [IEnd]) ++ compile_expr x) ([IPush (VCode (compile_block blk)); IBinary (lower cc)] ++ compile_block_from false rest0) (lower k) (cv v) (c_values c1)
+                (set_sw fX w1) w1 M2) as (r3 & c3 & S3 & M3 & EV3).
+    { cbn [f2 f1 f_code set_pos]. rewrite EC, <- !app_assoc. reflexivity. }
+    { cbn [f2 f1 f_pos set_pos]. rewrite EP1, !app_length. lia. }
+    { exact EV2. } { cbn; exact B1. } { exact NV2. }
+    { rewrite lower_idem, HK. exact (op_case (cv v) r2 (set_values (set_frames c2 (fX :: rest)) (c_values c1)) fX rest _ _ _ _ eq_refl AX). }
+    { apply match_set_sw, match_set_pos. destruct M2 as (_ & _ & MM & _). exact MM. } { reflexivity. }
+    set (f3 := set_sw fX w1) in *.
+    destruct (mach_push s r3 c3 f3 rest (pre ++ (if first then [] else [IEnd]) ++ compile_expr x ++ [IUnary (lower k)]) ([IBinary (lower cc)] ++ compile_block_from false rest0) (VCode (compile_block blk)) M3) as (r4 & c4 & S4 & M4 & EV4).
+    { cbn [f3 fX f2 f1 set_sw f_code set_pos set_vars]. rewrite EC, <- !app_assoc. reflexivity. }
+    { cbn [f3 fX f2 f1 set_sw f_pos set_pos set_vars]. rewrite EP1, !app_length. cbn. lia. }
+    set (f4 := set_pos f3 (f_pos f3 + 1)) in *.
+    set (fY := set_pos f4 (S (f_pos f4))).
+    assert (AY : assoc "___switch" (f_vars fY) = Some w1) by (cbn [fY f4 f_vars set_pos]; unfold f3; apply sw_after).
+    assert (HD' : andb (negb (sw_has sw)) (if veqb true (cv v) (cv (sw_v sw)) then true else sw_now sw) = true).
+    { rewrite veqb_cv. exact HD. }
+    set (fZ := set_pos (set_sw fY (VSwitch (cv (sw_v sw)) (compile_block blk) false true)) (S (length (f_code fY)))).
+    destruct (mach_binary s r4 c4 f4 rest (pre ++ (if first then [] else [IEnd]) ++ compile_expr x ++ [IUnary (lower k)] ++ [IPush (VCode (compile_block blk))]) (compile_block_from false rest0) (lower cc) w1 (VCode (compile_block blk)) (c_values c1)
+                fZ VNil M4) as (r5 & c5 & S5 & M5 & EV5).
+    { cbn [f4 f3 fX f2 f1 set_sw f_code set_pos set_vars]. rewrite EC, <- !app_assoc. reflexivity. }
+    { cbn [f4 f3 fX f2 f1 set_sw f_pos set_pos set_vars]. rewrite EP1, !app_length. cbn. lia. }
+    { rewrite EV4, EV3. reflexivity. } { cbn; exact B1. } { discriminate. } { discriminate. }
+    { rewrite lower_idem, HC. unfold w1 at 1. rewrite (op_colon _ _ _ _ (compile_block blk) r4 (set_values (set_frames c4 (fY :: rest)) (c_values c1)) fY rest _ _ _ _ eq_refl AY). rewrite HD'. reflexivity. }
+    { apply match_set_pos, match_set_sw, match_set_pos. destruct M4 as (_ & _ & MM & _). exact MM. } { reflexivity. }
+    exists r5, c5, fZ. split; [eapply steps_trans; [exact S1|eapply steps_trans; [exact S2|eapply steps_trans; [exact S3|eapply steps_trans; [exact S4|exact S5]]]]|].
+    split; [exact M5|]. split; [exists (VNil :: t1); split; [rewrite EV5, EV1; reflexivity|constructor; [reflexivity|exact UT1]]|].
+    split; [intros _; exists t1; rewrite EV5, EV1; reflexivity|]. split; [intros N; discriminate N|].
+    split; [unfold fZ, fY, f4, f3, fX, f2, f1, set_sw; destruct f; reflexivity|].
+    split; [unfold SwInv, fZ; cbn [f_vars set_pos]; rewrite sw_after; reflexivity|]. right. reflexivity.
+  - (* default {..} *)
+    assert (EC' : f_code f = pre ++ (if first then [] else [IEnd]) ++ ([IPush (VCode (compile_block blk)); IUnary (lower n)] ++ compile_block_from false rest0)).
+    { rewrite EC, compile_block_from_cons, (compile_stmt_default n blk). reflexivity. }
+    clear EC. rename EC' into EC.
+    destruct (sw_sep s r c f rest below pre first ([IPush (VCode (compile_block blk)); IUnary (lower n)] ++ compile_block_from false rest0) MA LB FR EC EP) as (r1 & c1 & p1 & S1 & M1 & FR1 & EC1 & EP1).
+    set (f1 := set_pos f p1) in *.
+    pose proof M1 as (_ & _ & _ & B1 & _). destruct FR1 as (t1 & EV1 & UT1).
+    destruct (mach_push s r1 c1 f1 rest (pre ++ (if first then [] else [IEnd])) ([IUnary (lower n)] ++ compile_block_from false rest0) (VCode (compile_block blk)) M1) as (r2 & c2 & S2 & M2 & EV2).
+    { cbn [f1 f_code set_pos]. rewrite EC, <- !app_assoc. reflexivity. } { exact EP1. }
+    set (f2 := set_pos f1 (f_pos f1 + 1)) in *.
+    set (fX := set_pos f2 (S (f_pos f2))).
+    assert (AX : assoc "___switch" (f_vars fX) = Some (VSwitch (cv (sw_v sw)) (sw_code sw) (sw_now sw) (sw_has sw))) by exact SI.
+    set (w1 := VSwitch (cv (sw_v sw)) (if sw_has sw then sw_code sw else compile_block blk) (sw_now sw) (sw_has sw)).
+    destruct (mach_unary s r2 c2 f2 rest (pre ++ (if first then [] else [IEnd]) ++ [IPush (VCode (compile_block blk))]) (compile_block_from false rest0) (lower n) (VCode (compile_block blk)) (c_values c1)
+                (set_sw fX w1) VNil M2) as (r3 & c3 & S3 & M3 & EV3).
+    { cbn [f2 f1 f_code set_pos]. rewrite EC, <- !app_assoc. reflexivity. }
+    { cbn [f2 f1 f_pos set_pos]. rewrite EP1, !app_length. cbn. lia. }
+    { exact EV2. } { cbn; exact B1. } { discriminate. }
+    { rewrite lower_idem, HN. exact (op_default (compile_block blk) r2 (set_values (set_frames c2 (fX :: rest)) (c_values c1)) fX rest _ _ _ _ eq_refl AX). }
+    { apply match_set_sw, match_set_pos. destruct M2 as (_ & _ & MM & _). exact MM. } { reflexivity. }
+    set (f3 := set_sw fX w1) in *.
+    destruct (IH r3 c3 f3 rest below (pre ++ (if first then [] else [IEnd]) ++ [IPush (VCode (compile_block blk)); IUnary (lower n)]) false M3) as (r6 & c6 & f6 & S6 & M6 & FR6 & NE6 & EQ6 & MV6 & SI6 & P6).
+    { exact LB. } { exists (VNil :: t1). split; [rewrite EV3, EV1; reflexivity|constructor; [reflexivity|exact UT1]]. }
+    { cbn [f3 fX f2 f1 set_sw f_code set_pos set_vars]. rewrite EC, <- !app_assoc. reflexivity. }
+    { cbn [f3 fX f2 f1 set_sw f_pos set_pos set_vars]. rewrite EP1, !app_length. cbn. lia. }
+    { unfold SwInv, f3. rewrite sw_after. unfold w1, sw_val, sw_dflt, sw_code. cbn [sw_v sw_target sw_now sw_has]. destruct (sw_has sw); reflexivity. }
+    exists r6, c6, f6. split; [eapply steps_trans; [exact S1|eapply steps_trans; [exact S2|eapply steps_trans; [exact S3|exact S6]]]|].
+    split; [exact M6|]. split; [exact FR6|]. split; [|split; [intros N; discriminate N|]].
+    { intros _. destruct rest0 as [|st3 rest3]; [|apply NE6; discriminate]. exists t1. rewrite (EQ6 eq_refl), EV3, EV1. reflexivity. }
+    split; [|split; [exact SI6|exact P6]].
+    eapply moved_trans; [|exact MV6]. unfold f3, fX, f2, f1, set_sw. destruct f; reflexivity.
+Qed.
+
+Lemma pop_enter s vars : pop_scope (enter s vars) = s.
+Proof. destruct s; reflexivity. Qed.
+
+(* switch v do {..}: the new frame carries the bookkeeping, the body starts at a statement boundary *)
+Lemma enter_sw s v code r1 c0 fc rest :
+  let newf := mk_frame (cur_ns c0) code (Some (BSwitch false)) None [("___switch", VSwitch (cv v) [] false false)] in
+  let c1 := push_value (push_frame c0 newf) VNil in
+  Good r1 c1 -> quirks r1 = ([], 0) -> c_frames c0 = fc :: rest -> Match s r1 (fc :: rest) ->
+  Mach (enter s []) r1 c1 (set_base newf (length (c_values c0))) (fc :: rest) /\ Fresh c1 (c_values c0) /\
+  SwInv (sw_start v) (set_base newf (length (c_values c0))).
+Proof.
+  intros newf c1 G D EF M. split; [|split; [apply fresh_one; reflexivity|reflexivity]].
+  split; [exact G|]. split; [cbn; rewrite EF; reflexivity|]. split; [|split; [cbn; lia|exact D]].
+  destruct M as [F N]. split; [|exact N]. cbn. constructor; [|exact F].
+  split; [intros k HK; cbn; unfold hidden in HK; rewrite HK; reflexivity|split; [|split; reflexivity]].
+  cbn. unfold cur_ns. rewrite EF. inversion F as [|sc f0 scs fs (V & NS & BB) F' E1 E2]; subst.
+  unfold cur_ns_of. rewrite <- E1. exact NS.
+Qed.
+
 Theorem vm_runs_z :
   (forall s e v s', zev s e v s' -> forall r c f rest pre post, Mach s r c f rest ->
       f_code f = pre ++ compile_expr e ++ post -> f_pos f = length pre -> Post s' (cv v) (length (compile_expr e)) r c f rest) /\
@@ -1308,9 +1763,9 @@ Proof.
     + split; [apply good_adv; exact G|]. split; [reflexivity|]. split; [apply match_upd, match_set_pos; exact M|].
       split; [cbn; lia|rewrite quirks_upd_cur; exact D].
     + split; [reflexivity|]. split; [apply moved_set_pos|]. split; [reflexivity|apply kept_all_refl].
-  - (* local variable *) intros s n v IL HL NN r c f rest pre post MA EC EP. cbn [compile_expr app length] in *.
+  - (* local variable *) intros s n v IL HH HL NN r c f rest pre post MA EC EP. cbn [compile_expr app length] in *.
     eapply push_post; eauto. intros c1 F1. cbn [exec_instr]. rewrite IL. unfold get_variable. rewrite F1.
-    rewrite lookup_frames_set_pos. destruct MA as (_ & _ & [F _] & _). rewrite (lookup_match _ _ _ F). unfold loc_of in HL. rewrite HL. reflexivity.
+    rewrite lookup_frames_set_pos. destruct MA as (_ & _ & [F _] & _). rewrite (lookup_match _ HH _ _ F). unfold loc_of in HL. rewrite HL. reflexivity.
   - (* global variable *) intros s n v IL HL NN r c f rest pre post MA EC EP. cbn [compile_expr app length] in *.
     eapply push_post; eauto. intros c1 F1. cbn [exec_instr]. rewrite IL, F1. unfold ns_get. cbn [f_ns set_pos].
     destruct MA as (_ & _ & MM & _). destruct (env_ok_of s r f rest MM) as [_ EG]. rewrite (EG _ _ HL). reflexivity.
@@ -1374,7 +1829,7 @@ Proof.
     set (c0 := set_values (set_frames c1 (set_pos f1 (S (f_pos f1)) :: rest1)) (c_values c)).
     assert (TH : match get_variable c0 "_this" with Some t => t | None => VNil end = cv (this_of s1)).
     { unfold get_variable. cbn [c_frames c0 set_values set_frames]. rewrite lookup_frames_set_pos.
-      destruct MM1 as [F1 _]. rewrite (lookup_match _ _ _ F1). unfold this_of.
+      destruct MM1 as [F1 _]. rewrite (lookup_match (lower "_this") eq_refl _ _ F1). unfold this_of.
       change (lower "_this") with "_this". destruct (lookup_scopes "_this" (st_scopes s1)); reflexivity. }
     destruct (unary_run r1 c1 f1 rest1 _ _ (lower n) (cv (RCode b)) (c_values c)
                 (push_frame c0 (mk_frame (cur_ns c0) (compile_block b) None None (mvars [("_this", this_of s1)]))) VNil G1 EF1 EC1 EP1 EV1) as [S2 G2].
@@ -1896,13 +2351,13 @@ Proof.
       split; [cbn; rewrite (moved_base _ _ MV2), (moved_base _ _ MV1); lia|rewrite quirks_upd_cur; exact D2].
     + split; [reflexivity|]. split; [eapply moved_trans; [exact MV1|eapply moved_trans; [exact MV2|apply moved_set_pos]]|].
       split; [cbn; rewrite P2, P1; lia|eapply kept_all_trans; eassumption].
-  - (* private "x" *) intros s n a x s1 HN NL HA IHa r c f rest pre post MA EC EP.
+  - (* private "x" *) intros s n a x s1 HN NL HA IHa HH r c f rest pre post MA EC EP.
     rewrite (compile_unary_nonlit n a NL) in *. rewrite app_length. cbn [length]. rewrite <- app_assoc in EC.
     post_intro (IHa r c f rest pre ([IUnary (lower n)] ++ post) MA EC EP) r1 c1 f1 rest1 S1 M1 EV1 MV1 P1 K1.
     destruct (after_operands_code f f1 pre _ _ MV1 EC EP P1) as [EC1 EP1].
     destruct M1 as (G1 & EF1 & MM1 & B1 & D1). destruct MA as (_ & _ & _ & B & _).
     set (c0 := set_values (set_frames c1 (set_pos f1 (S (f_pos f1)) :: rest1)) (c_values c)).
-    destruct (match_declare s1 r1 c0 (set_pos f1 (S (f_pos f1))) rest1 x eq_refl (match_set_pos _ _ _ _ _ MM1)) as (f2 & EF2 & MM2 & K2 & EV2 & SU2).
+    destruct (match_declare s1 r1 c0 (set_pos f1 (S (f_pos f1))) rest1 x HH eq_refl (match_set_pos _ _ _ _ _ MM1)) as (f2 & EF2 & MM2 & K2 & EV2 & SU2).
     destruct (unary_run r1 c1 f1 rest1 _ _ (lower n) (cv (RStr x)) (c_values c) (declare_top_var c0 x) VNil G1 EF1 EC1 EP1 EV1) as [S2 G2].
     { rewrite (moved_base _ _ MV1); exact B. } { discriminate. } { rewrite lower_idem, HN. reflexivity. }
     { rewrite SU2. destruct G1 as (_ & _ & _ & _ & _ & _ & SU); exact SU. }
@@ -1997,7 +2452,7 @@ Proof.
     set (c0 := set_values (set_frames c1 (set_pos f1 (S (f_pos f1)) :: rest1)) (c_values c)).
     assert (TH : match get_variable c0 "_this" with Some t0 => t0 | None => VNil end = cv (this_of s1)).
     { unfold get_variable. cbn [c_frames c0 set_values set_frames]. rewrite lookup_frames_set_pos.
-      destruct MM1 as [F1 _]. rewrite (lookup_match _ _ _ F1). unfold this_of.
+      destruct MM1 as [F1 _]. rewrite (lookup_match (lower "_this") eq_refl _ _ F1). unfold this_of.
       change (lower "_this") with "_this". destruct (lookup_scopes "_this" (st_scopes s1)); reflexivity. }
     set (newf := mk_frame (cur_ns c0) (compile_block b) None None (mvars [("_this", this_of s1)])).
     destruct (unary_run r1 c1 f1 rest1 _ _ (lower n) (cv (RCode b)) (c_values c) (push_frame c0 newf) VNil G1 EF1 EC1 EP1 EV1) as [S2 G2].
@@ -2063,6 +2518,121 @@ Proof.
     split; [rewrite drop_scopes_S, drop_scopes_0 in M4; exact M4|]. split; [exact EV4|].
     split; [eapply moved_trans; [exact MV1|eapply moved_trans; [exact MV2|eapply moved_trans; [apply (moved_set_pos f2 (S (f_pos f2)))|apply kept_moved; exact K4]]]|].
     split; [rewrite (kept_pos _ _ K4); cbn; rewrite P2, P1; lia|eapply kept_all_trans; [exact K1|eapply kept_all_trans; eassumption]].
+  - (* switch v *) intros s n a v s1 HN NL HA IHa NNv r c f rest pre post MA EC EP.
+    rewrite (compile_unary_nonlit n a NL) in *. rewrite app_length. cbn [length]. rewrite <- app_assoc in EC.
+    post_intro (IHa r c f rest pre ([IUnary (lower n)] ++ post) MA EC EP) r1 c1 f1 rest1 S1 M1 EV1 MV1 P1 K1.
+    destruct (after_operands_code f f1 pre _ _ MV1 EC EP P1) as [EC1 EP1].
+    destruct M1 as (G1 & EF1 & MM1 & B1 & D1). destruct MA as (_ & _ & _ & B & _).
+    set (c0 := set_values (set_frames c1 (set_pos f1 (S (f_pos f1)) :: rest1)) (c_values c)).
+    destruct (unary_run r1 c1 f1 rest1 _ _ (lower n) (cv v) (c_values c) c0 (cv (RSwitch v)) G1 EF1 EC1 EP1 EV1) as [S2 G2].
+    { rewrite (moved_base _ _ MV1); exact B. } { apply nonnil_cv; exact NNv. } { rewrite lower_idem, HN. reflexivity. }
+    { destruct G1 as (_ & _ & _ & _ & _ & _ & SU); exact SU. }
+    eexists _, _, _, rest1. split; [eapply steps_trans; [exact S1|exact S2]|]. split.
+    + split; [exact G2|]. split; [reflexivity|]. split; [apply match_upd, match_set_pos; exact MM1|].
+      split; [cbn; rewrite (moved_base _ _ MV1); lia|rewrite quirks_upd_cur; exact D1].
+    + split; [reflexivity|]. split; [eapply moved_trans; [exact MV1|apply moved_set_pos]|]. split; [cbn; rewrite P1; lia|exact K1].
+  - (* switch v do {..}, no block chosen *) intros s n a b v body s1 s2 sw HN HA IHa HB IHb HW HT r c f rest pre post MA EC EP.
+    rewrite compile_binary in *. rewrite !app_length. cbn [length]. rewrite <- !app_assoc in EC.
+    post_intro (IHa r c f rest pre (compile_expr b ++ [IBinary (lower n)] ++ post) MA EC EP) r1 c1 f1 rest1 S1 M1 EV1 MV1 P1 K1.
+    destruct (after_operands_code f f1 pre _ _ MV1 EC EP P1) as [EC1 EP1].
+    post_intro (IHb r1 c1 f1 rest1 (pre ++ compile_expr a) ([IBinary (lower n)] ++ post) M1 EC1 EP1) r2 c2 f2 rest2 S2 M2 EV2 MV2 P2 K2.
+    destruct (after_operands_code f1 f2 _ _ _ MV2 EC1 EP1 P2) as [EC2 EP2].
+    destruct M2 as (G2 & EF2 & MM2 & B2 & D2). destruct MA as (_ & _ & _ & B & _).
+    rewrite EV1 in EV2.
+    set (fcur := set_pos f2 (S (f_pos f2))).
+    set (c0 := set_values (set_frames c2 (fcur :: rest2)) (c_values c)).
+    set (newf := mk_frame (cur_ns c0) (compile_block body) (Some (BSwitch false)) None [("___switch", VSwitch (cv v) [] false false)]).
+    destruct (binary_run r2 c2 f2 rest2 _ _ (lower n) (cv (RSwitch v)) (cv (RCode body)) (c_values c)
+                (push_frame c0 newf) VNil G2 EF2 EC2 EP2 EV2) as [S3 G3].
+    { rewrite (moved_base _ _ MV2), (moved_base _ _ MV1); exact B. } { discriminate. } { discriminate. }
+    { rewrite lower_idem, HN. reflexivity. }
+    { destruct G2 as (_ & _ & _ & _ & _ & _ & SU); exact SU. }
+    destruct (enter_sw s2 v (compile_block body) _ c0 fcur rest2 G3) as (M3 & FR3 & SI3).
+    { rewrite quirks_upd_cur; exact D2. } { reflexivity. } { apply match_upd, match_set_pos; exact MM2. }
+    set (nf := set_base newf (length (c_values c0))) in *.
+    destruct (switch_body_vm _ _ _ _ HW _ _ nf (fcur :: rest2) (c_values c0) [] true M3 eq_refl FR3 eq_refl eq_refl SI3)
+      as (r4 & c4 & f4 & S4 & M4 & (t4 & EV4 & UT4) & _ & _ & MV4 & SI4 & DN4).
+    pose proof M4 as (G4 & EF4 & MM4 & B4 & D4).
+    destruct (sw_complete r4 c4 f4 fcur rest2 false t4 (c_values c0) G4 D4 EF4 DN4) as [S5 G5].
+    { rewrite (moved_exit _ _ MV4). reflexivity. } { rewrite (moved_die _ _ MV4). reflexivity. }
+    { right. unfold SwInv, sw_val, sw_code in SI4. destruct HT as [HT|HT]; rewrite HT in SI4; eexists _, _, _; exact SI4. }
+    { exact EV4. } { rewrite (moved_base _ _ MV4). reflexivity. }
+    rewrite (under_top t4 UT4) in S5, G5.
+    eexists _, _, fcur, rest2. split; [eapply steps_trans; [exact S1|eapply steps_trans; [exact S2|eapply steps_trans; [exact S3|eapply steps_trans; [exact S4|exact S5]]]]|].
+    split.
+    + split; [exact G5|]. split; [reflexivity|]. split.
+      * apply match_upd. destruct MM4 as [F N]. split; [|exact N]. inversion F as [|sc f0 scs fs FM F' E1 E2]; subst. exact F'.
+      * split; [cbn; rewrite (moved_base _ _ MV2), (moved_base _ _ MV1); lia|rewrite quirks_upd_cur; exact D4].
+    + split; [reflexivity|]. split; [eapply moved_trans; [exact MV1|eapply moved_trans; [exact MV2|apply moved_set_pos]]|].
+      split; [cbn; rewrite P2, P1; lia|eapply kept_all_trans; eassumption].
+  - (* switch v do {..}, the chosen block runs *)
+    intros s n a b v body s1 s2 sw t ts reg s4 HN HA IHa HB IHb HW HT LF HK IHk r c f rest pre post MA EC EP.
+    rewrite compile_binary in *. rewrite !app_length. cbn [length]. rewrite <- !app_assoc in EC.
+    post_intro (IHa r c f rest pre (compile_expr b ++ [IBinary (lower n)] ++ post) MA EC EP) r1 c1 f1 rest1 S1 M1 EV1 MV1 P1 K1.
+    destruct (after_operands_code f f1 pre _ _ MV1 EC EP P1) as [EC1 EP1].
+    post_intro (IHb r1 c1 f1 rest1 (pre ++ compile_expr a) ([IBinary (lower n)] ++ post) M1 EC1 EP1) r2 c2 f2 rest2 S2 M2 EV2 MV2 P2 K2.
+    destruct (after_operands_code f1 f2 _ _ _ MV2 EC1 EP1 P2) as [EC2 EP2].
+    destruct M2 as (G2 & EF2 & MM2 & B2 & D2). destruct MA as (_ & _ & _ & B & _).
+    rewrite EV1 in EV2.
+    set (fcur := set_pos f2 (S (f_pos f2))).
+    set (c0 := set_values (set_frames c2 (fcur :: rest2)) (c_values c)).
+    set (newf := mk_frame (cur_ns c0) (compile_block body) (Some (BSwitch false)) None [("___switch", VSwitch (cv v) [] false false)]).
+    destruct (binary_run r2 c2 f2 rest2 _ _ (lower n) (cv (RSwitch v)) (cv (RCode body)) (c_values c)
+                (push_frame c0 newf) VNil G2 EF2 EC2 EP2 EV2) as [S3 G3].
+    { rewrite (moved_base _ _ MV2), (moved_base _ _ MV1); exact B. } { discriminate. } { discriminate. }
+    { rewrite lower_idem, HN. reflexivity. }
+    { destruct G2 as (_ & _ & _ & _ & _ & _ & SU); exact SU. }
+    destruct (enter_sw s2 v (compile_block body) _ c0 fcur rest2 G3) as (M3 & FR3 & SI3).
+    { rewrite quirks_upd_cur; exact D2. } { reflexivity. } { apply match_upd, match_set_pos; exact MM2. }
+    set (nf := set_base newf (length (c_values c0))) in *.
+    destruct (switch_body_vm _ _ _ _ HW _ _ nf (fcur :: rest2) (c_values c0) [] true M3 eq_refl FR3 eq_refl eq_refl SI3)
+      as (r4 & c4 & f4 & S4 & M4 & (t4 & EV4 & UT4) & NE4 & _ & MV4 & SI4 & DN4).
+    assert (BN : body <> []).
+    { intros ->. inversion HW; subst. cbn in HT. discriminate HT. }
+    destruct (NE4 BN) as (t5 & EV5). rewrite EV5 in EV4.
+    assert (t4 = VNil :: t5) by (apply (app_inv_tail (c_values c0)); rewrite <- EV4; reflexivity). subst t4.
+    pose proof M4 as (G4 & EF4 & MM4 & B4 & D4).
+    destruct LF as (i0 & code' & LC & LL).
+    assert (A4 : assoc "___switch" (f_vars f4) = Some (VSwitch (cv (sw_v sw)) (i0 :: code') (sw_now sw) (sw_has sw))).
+    { unfold SwInv, sw_val, sw_code in SI4. rewrite HT, LC in SI4. exact SI4. }
+    assert (X4 : f_exit f4 = Some (BSwitch false)) by (rewrite (moved_exit _ _ MV4); reflexivity).
+    assert (E4 : f_die f4 = false) by (rewrite (moved_die _ _ MV4); reflexivity).
+    pose proof (sw_back r4 c4 f4 (fcur :: rest2) _ i0 code' _ _ G4 EF4 DN4 X4 E4 LL A4) as BK.
+    set (fV := sw_frame f4 (i0 :: code')) in *. set (cV := set_frames c4 (fV :: fcur :: rest2)) in *.
+    assert (GV : Good (upd_cur r4 cV) cV) by (apply (good_upd r4 c4 cV G4); destruct G4 as (_ & _ & _ & _ & _ & _ & SU); exact SU).
+    assert (AV : AtM (enter s2 []) RNil (upd_cur r4 cV) cV fV (fcur :: rest2) (c_values c0)).
+    { split.
+      - split; [exact GV|]. split; [reflexivity|]. split.
+        + apply match_upd. destruct MM4 as [F N]. split; [|exact N]. inversion F as [|sc f0 scs fs (V & NS & BB) F' E1 E2]; subst.
+          constructor; [|exact F']. split; [exact V|split; [exact NS|exact BB]].
+        + split; [cbn; rewrite EV5; cbn; rewrite app_length, (moved_base _ _ MV4); cbn; lia|rewrite quirks_upd_cur; exact D4].
+      - split; [cbn; rewrite (moved_base _ _ MV4); reflexivity|]. exists (VNil :: t5). split; [exact EV5|].
+        split; [reflexivity|]. split; [discriminate|inversion UT4; assumption]. }
+    destruct (IHk (upd_cur r4 cV) cV fV fcur rest2 (c_values c0) [] AV) as (r5 & c5 & f5 & rest5 & S5 & A5 & MV5 & P5 & K5).
+    { exists (VNil :: t5). split; [exact EV5|exact UT4]. } { cbn [fV sw_frame f_code set_pos set_code]. rewrite LC. reflexivity. } { reflexivity. }
+    { cbn. rewrite (moved_base _ _ MV2), (moved_base _ _ MV1); exact B. }
+    inversion K5 as [|fa fc5 ra rest5' Ka Kb Ea Eb]; subst.
+    destruct A5 as ((G5 & EF5 & MM5 & B5 & D5) & LB5 & top5 & EV6 & RR5).
+    destruct (sw_complete r5 c5 f5 fc5 rest5' true top5 (c_values c0) G5 D5 EF5) as [S6 G6].
+    { left. rewrite P5, (moved_code _ _ MV5). reflexivity. }
+    { rewrite (moved_exit _ _ MV5). reflexivity. } { rewrite (moved_die _ _ MV5). cbn. rewrite E4. reflexivity. }
+    { left. reflexivity. } { exact EV6. } { exact LB5. }
+    assert (VAL : match top5 with [] => VNil | x :: _ => x end = cv (res_of reg)).
+    { destruct top5 as [|x top5]; cbn in RR5; [rewrite RR5; reflexivity|]. destruct RR5 as (-> & NR & _). destruct reg; reflexivity. }
+    rewrite VAL in S6, G6.
+    set (c6 := set_values (set_frames c5 (fc5 :: rest5')) (cv (res_of reg) :: c_values c0)) in *.
+    assert (NQ : upd_cur r5 c6 <> upd_cur r4 cV).
+    { destruct GV as (CV & _). destruct G6 as (C6 & _). eapply neq_by_frames; [exact CV|exact C6|].
+      cbn. rewrite (forall2_length _ _ _ Kb). lia. }
+    assert (ST : Steps r4 (upd_cur r5 c6)).
+    { eapply virtual_start; [exact BK|apply cfg_upd_cur|eapply steps_trans; [exact S5|exact S6]|exact NQ]. }
+    eexists _, _, fc5, rest5'. split; [eapply steps_trans; [exact S1|eapply steps_trans; [exact S2|eapply steps_trans; [exact S3|eapply steps_trans; [exact S4|exact ST]]]]|].
+    split.
+    + split; [exact G6|]. split; [reflexivity|]. split.
+      * apply match_upd. destruct MM5 as [F N]. split; [|exact N]. inversion F as [|sc f0 scs fs FM F' E1 E2]; subst. cbn. rewrite <- E1. cbn. exact F'.
+      * split; [cbn; rewrite (kept_base _ _ Ka); cbn; rewrite (moved_base _ _ MV2), (moved_base _ _ MV1); lia|rewrite quirks_upd_cur; exact D5].
+    + split; [reflexivity|]. split; [eapply moved_trans; [exact MV1|eapply moved_trans; [exact MV2|eapply moved_trans; [apply (moved_set_pos f2 (S (f_pos f2)))|apply kept_moved; exact Ka]]]|].
+      split; [rewrite (kept_pos _ _ Ka); cbn; rewrite P2, P1; lia|eapply kept_all_trans; [exact K1|eapply kept_all_trans; eassumption]].
   - (* no elements *) intros s r c f rest pre post MA EC EP. split; [|reflexivity].
     exists r, c, f, rest. split; [apply StepsRefl|]. split; [exact MA|]. split; [reflexivity|]. split; [apply moved_refl|].
     split; [cbn; lia|apply kept_all_refl].
@@ -2081,13 +2651,13 @@ Proof.
     exists r1, c1, f1, rest1. split; [exact S1|]. split; [|split; [exact MV1|split; [exact P1|exact K1]]].
     split; [exact M1|]. split; [rewrite (moved_base _ _ MV1); exact LB|]. exists (cv v :: top). split; [rewrite EV1, EV; reflexivity|].
     split; [reflexivity|]. split; [exact (zev_not_none _ _ _ _ HE)|exact (fresh_under c top below EV FR)].
-  - (* statement: x = e *) intros s reg n e v s1 NN HE IHe NV r c f rest below pre post (MA & LB & top & EV & RR) FR EC EP.
+  - (* statement: x = e *) intros s reg n e v s1 NN HH HE IHe NV r c f rest below pre post (MA & LB & top & EV & RR) FR EC EP.
     cbn [compile_stmt] in *. rewrite app_length. cbn [length]. rewrite <- app_assoc in EC.
     post_intro (IHe r c f rest pre ([IAssign n] ++ post) MA EC EP) r1 c1 f1 rest1 S1 M1 EV1 MV1 P1 K1.
     destruct (after_operands_code f f1 pre _ _ MV1 EC EP P1) as [EC1 EP1].
     destruct MA as (_ & _ & _ & B & _).
     destruct (assign_run s1 r1 c1 f1 rest1 _ _ n v (c_values c) M1 EC1 EP1 EV1) as (r2 & c2 & f2 & rest2 & S2 & M2 & EV2 & MV2 & P2 & K2).
-    { rewrite (moved_base _ _ MV1); exact B. } { exact NN. } { exact NV. }
+    { rewrite (moved_base _ _ MV1); exact B. } { exact NN. } { exact HH. } { exact NV. }
     exists r2, c2, f2, rest2. split; [eapply steps_trans; eassumption|]. split.
     + split; [exact M2|]. split; [rewrite (moved_base _ _ MV2), (moved_base _ _ MV1); exact LB|]. exists top. split; [rewrite EV2; exact EV|exact RR].
     + split; [eapply moved_trans; eassumption|]. split; [rewrite P2, P1; lia|eapply kept_all_trans; eassumption].
@@ -2263,7 +2833,7 @@ Proof.
     { destruct A as ((G0 & EF0 & _) & _). destruct G0 as (C0 & _). destruct M1 as ((C1 & _) & EF1 & _). eapply neq_by_frames; [exact C0|exact C1|].
       rewrite EF1, EF0. cbn. rewrite (forall2_length _ _ _ KR1). lia. }
     split; [exact M1|]. split; [exact EV1|]. split; assumption.
-  - (* a round of for, then the rest *) intros var to st s x first body reg s1 y acc' s' HB IHb TV BY HI IHi.
+  - (* a round of for, then the rest *) intros var to st s x first body reg s1 y acc' s' HB IHb HV TV BY HI IHi.
     intros r c f fc frest below A FR EC EP EX ED LF ENS HBf.
     specialize (IHb r c f fc frest below [] A FR EC EP HBf). cbn in IHb.
     destruct IHb as (r1 & c1 & f1 & rest1 & S1 & A1 & MV1 & P1 & K1).
@@ -2275,7 +2845,7 @@ Proof.
     assert (XP : f_pos f1 = length (f_code f1)) by (rewrite P1, (moved_code _ _ MV1); reflexivity).
     inversion F1 as [|sc1 f0 scs1 fs1 FM1 F1' E1 E2]; subst.
     assert (AV : assoc (lower var) (f_vars f1) = Some (VNum y)).
-    { destruct FM1 as (V1 & _). rewrite (V1 (lower var)). unfold top_var in TV. rewrite <- E1 in TV. rewrite TV. reflexivity. }
+    { destruct FM1 as (V1 & _). rewrite (V1 (lower var) HV). unfold top_var in TV. rewrite <- E1 in TV. rewrite TV. reflexivity. }
     destruct LF as (i0 & code' & LC & LL).
     assert (EC1 : f_code f1 = i0 :: code') by (rewrite (moved_code _ _ MV1), EC; exact LC).
     pose proof (for_round var to st y r1 c1 f1 (fc1 :: frest1) top1 below EF1 EV1 LB1 AV BY) as GR.
@@ -2303,7 +2873,7 @@ Proof.
     { destruct G0 as (C0 & _). destruct M4 as ((C4 & _) & EF4 & _). eapply neq_by_frames; [exact C0|exact C4|].
       rewrite EF4, EF0. cbn. rewrite (forall2_length _ _ _ KR4), (forall2_length _ _ _ Kb). lia. }
     split; [exact M4|]. split; [exact EV4|]. split; [eapply kept_trans; eassumption|eapply kept_all_trans; eassumption].
-  - (* the last round of for *) intros var to st s x first body reg s1 y HB IHb TV BY.
+  - (* the last round of for *) intros var to st s x first body reg s1 y HB IHb HV TV BY.
     intros r c f fc frest below A FR EC EP EX ED LF ENS HBf.
     specialize (IHb r c f fc frest below [] A FR EC EP HBf). cbn in IHb.
     destruct IHb as (r1 & c1 & f1 & rest1 & S1 & A1 & MV1 & P1 & K1).
@@ -2315,7 +2885,7 @@ Proof.
     assert (XP : f_pos f1 = length (f_code f1)) by (rewrite P1, (moved_code _ _ MV1); reflexivity).
     inversion F1 as [|sc1 f0 scs1 fs1 FM1 F1' E1 E2]; subst.
     assert (AV : assoc (lower var) (f_vars f1) = Some (VNum y)).
-    { destruct FM1 as (V1 & _). rewrite (V1 (lower var)). unfold top_var in TV. rewrite <- E1 in TV. rewrite TV. reflexivity. }
+    { destruct FM1 as (V1 & _). rewrite (V1 (lower var) HV). unfold top_var in TV. rewrite <- E1 in TV. rewrite TV. reflexivity. }
     pose proof (for_over var to st y r1 c1 f1 (fc1 :: frest1) top1 below EF1 EV1 AV BY) as LO.
     destruct (complete_loop r1 c1 f1 fc1 frest1 _ top1 below G1 D1 EF1 XP XE XD LO LB1) as [S2 G2].
     eexists _, _, fc1, frest1. split; [eapply steps_trans; eassumption|]. split.
@@ -2529,7 +3099,7 @@ Proof.
     set (c0 := set_values (set_frames c1 (set_pos f1 (S (f_pos f1)) :: rest1)) (c_values c)).
     assert (TH : match get_variable c0 "_this" with Some t => t | None => VNil end = cv (this_of s1)).
     { unfold get_variable. cbn [c_frames c0 set_values set_frames]. rewrite lookup_frames_set_pos.
-      destruct MM1 as [F1 _]. rewrite (lookup_match _ _ _ F1). unfold this_of.
+      destruct MM1 as [F1 _]. rewrite (lookup_match (lower "_this") eq_refl _ _ F1). unfold this_of.
       change (lower "_this") with "_this". destruct (lookup_scopes "_this" (st_scopes s1)); reflexivity. }
     destruct (unary_run r1 c1 f1 rest1 _ _ (lower n) (cv (RCode b)) (c_values c)
                 (push_frame c0 (mk_frame (cur_ns c0) (compile_block b) None None (mvars [("_this", this_of s1)]))) VNil G1 EF1 EC1 EP1 EV1) as [S2 G2].
@@ -2690,7 +3260,7 @@ Proof.
     set (c0 := set_values (set_frames c1 (set_pos f1 (S (f_pos f1)) :: rest1)) (c_values c)).
     assert (TH : match get_variable c0 "_this" with Some t0 => t0 | None => VNil end = cv (this_of s1)).
     { unfold get_variable. cbn [c_frames c0 set_values set_frames]. rewrite lookup_frames_set_pos.
-      destruct MM1 as [F1 _]. rewrite (lookup_match _ _ _ F1). unfold this_of.
+      destruct MM1 as [F1 _]. rewrite (lookup_match (lower "_this") eq_refl _ _ F1). unfold this_of.
       change (lower "_this") with "_this". destruct (lookup_scopes "_this" (st_scopes s1)); reflexivity. }
     destruct (unary_run r1 c1 f1 rest1 _ _ (lower n) (cv (RCode b)) (c_values c)
                 (push_frame c0 (mk_frame (cur_ns c0) (compile_block b) None None (mvars [("_this", this_of s1)]))) VNil G1 EF1 EC1 EP1 EV1) as [S2 G2].
@@ -2914,6 +3484,44 @@ Proof.
   destruct (String.eqb_spec (sc_name sc') t) as [E|_]; [contradiction|reflexivity].
 Qed.
 
+(* switch in the reference semantics, named *)
+Definition switch_after (f:nat) (p:outcome * sstate * swst) : outcome * sstate :=
+  let '(o, s1, sw) := p in
+  match o with
+  | ONormal _ =>
+      match sw_target sw with
+      | Some (t :: ts) => let '(o2, s2) := eval_block f s1 (t :: ts) RNil in
+                     let s3 := pop_scope s2 in
+                     match o2 with
+                     | ONormal RNone => (ONormal RNil, s3)
+                     | OExit x => (ONormal x, s3)
+                     | OBreak name x => match st_scopes s2 with
+                                        | sc' :: _ => if String.eqb (sc_name sc') name then (ONormal x, s3) else (OBreak name x, s3)
+                                        | [] => (OBreak name x, s3) end
+                     | other => (other, s3) end
+      | _ => (ONormal RNil, pop_scope s1) end
+  | other => (other, pop_scope s1) end.
+Lemma eval_binary_switch f F s v body :
+  eval_binary (S f) s "do" (RSwitch v) (RCode body) (in_scope_f F) plain_scope_f =
+  switch_after f (eval_switch_body f (push_scope s (plain_scope_f s [])) body (sw_start v)).
+Proof. reflexivity. Qed.
+
+Lemma switch_body_ref s body sw sw' : zswitch s body sw sw' ->
+  exists f0, forall f, f0 <= f -> eval_switch_body f s body sw = (ONormal RNil, s, sw').
+Proof.
+  induction 1 as [sw|n x v st2 rest0 sw sw' HN HX HR [f0 IH]|cc k x blk v rest0 sw sw' HC HK HX HD HR [f0 IH]|cc k x blk v rest0 sw HC HK HX HD|n blk rest0 sw sw' HN HR [f0 IH]].
+  - exists 1. intros [|f] L; [lia|]. reflexivity.
+  - exists (S (f0 + esize x)). intros [|f] L; [lia|]. cbn [eval_switch_body]. rewrite HN. cbn [String.eqb Ascii.eqb Bool.eqb].
+    rewrite (proj2 (proj1 (pure_ref _ _) x v HX) s f (renv_ok_of s)) by lia. apply IH. lia.
+  - exists (S (f0 + esize x)). intros [|f] L; [lia|]. cbn [eval_switch_body]. rewrite HC, HK. cbn [String.eqb Ascii.eqb Bool.eqb andb].
+    rewrite (proj2 (proj1 (pure_ref _ _) x v HX) s f (renv_ok_of s)) by lia.
+    change (if req true v (sw_v sw) then true else sw_now sw) with (sw_now (sw_see sw v)). rewrite HD. apply IH. lia.
+  - exists (S (esize x)). intros [|f] L; [lia|]. cbn [eval_switch_body]. rewrite HC, HK. cbn [String.eqb Ascii.eqb Bool.eqb andb].
+    rewrite (proj2 (proj1 (pure_ref _ _) x v HX) s f (renv_ok_of s)) by lia.
+    change (if req true v (sw_v sw) then true else sw_now sw) with (sw_now (sw_see sw v)). rewrite HD. reflexivity.
+  - exists (S f0). intros [|f] L; [lia|]. cbn [eval_switch_body]. rewrite HN. cbn [String.eqb Ascii.eqb Bool.eqb]. apply IH. lia.
+Qed.
+
 Theorem ref_runs_z :
   (forall s e v s', zev s e v s' -> exists f0, forall f, f0 <= f -> eval f s e = (ONormal v, s')) /\
   (forall s l vs s', zevs s l vs s' -> exists f0, forall f, f0 <= f -> forall acc, go_arr f s l acc = (ONormal (RArr (rev acc ++ vs)), s')) /\
@@ -2931,7 +3539,7 @@ Theorem ref_runs_z :
 Proof.
   apply z_ind.
   - (* pure *) intros s e v HE. exists (esize e). intros f L. exact (proj2 (proj1 (pure_ref _ _) e v HE) s f (renv_ok_of s) L).
-  - (* local *) intros s n v IL HL NN. exists 1. intros [|f] L; [lia|]. cbn [eval]. rewrite IL. unfold loc_of in HL. rewrite HL. reflexivity.
+  - (* local *) intros s n v IL HH HL NN. exists 1. intros [|f] L; [lia|]. cbn [eval]. rewrite IL. unfold loc_of in HL. rewrite HL. reflexivity.
   - (* global *) intros s n v IL HL NN. exists 1. intros [|f] L; [lia|]. cbn [eval]. rewrite IL. unfold rns_get. unfold glob_of in HL. rewrite HL. reflexivity.
   - (* code *) intros s b. exists 1. intros [|f] L; [lia|]. reflexivity.
   - (* array *) intros s l vs s' HL [f0 IH]. exists (S f0). intros [|f] L; [lia|]. rewrite eval_S_arr. rewrite (IH f) by lia. reflexivity.
@@ -3057,7 +3665,7 @@ Proof.
     unfold eval_binary. cbn [String.eqb Ascii.eqb Bool.eqb]. rewrite HG. reflexivity.
   - (* setVariable *) intros s n a b ns x v s1 s2 HN HA [fa IHa] HB [fb IHb]. exists (S (S (fa + fb))). intros [|[|f]] L; try lia.
     rewrite eval_S_binary, (IHa (S f)), (IHb (S f)) by lia. rewrite HN. reflexivity.
-  - (* private "x" *) intros s n a x s1 HN NL HA [fa IHa]. exists (S (S fa)). intros [|[|f]] L; try lia.
+  - (* private "x" *) intros s n a x s1 HN NL HA [fa IHa] HH. exists (S (S fa)). intros [|[|f]] L; try lia.
     rewrite (eval_S_unary _ _ _ _ NL), (IHa (S f)) by lia. rewrite HN. reflexivity.
   - (* try {..} *) intros s n a b s1 HN NL HA [fa IHa]. exists (S (S fa)). intros [|[|f]] L; try lia.
     rewrite (eval_S_unary _ _ _ _ NL), (IHa (S f)) by lia. rewrite HN. reflexivity.
@@ -3090,6 +3698,23 @@ Proof.
     rewrite eval_S_binary, (IHa (S f)), (IHb (S f)) by lia. rewrite HN.
     transitivity (in_scope_f (S f) s2 (plain_scope_f s2 []) (if c then x0 else y0)); [reflexivity|].
     eapply (in_scope_break_caught _ _ _ _ t); [apply IHk; lia|exact (proj1 (zbreak_facts _ _ _ _ _ _ HK))|exact TN].
+  - (* switch v *) intros s n a v s1 HN NL HA [fa IHa] NNv. exists (S (S fa)). intros [|[|f]] L; try lia.
+    rewrite (eval_S_unary _ _ _ _ NL), (IHa (S f)) by lia. rewrite HN.
+    destruct NNv as [A1 A2]. destruct v; try contradiction; reflexivity.
+  - (* switch v do {..}, no block chosen *) intros s n a b v body s1 s2 sw HN HA [fa IHa] HB [fb IHb] HW HT.
+    destruct (switch_body_ref _ _ _ _ HW) as [fw IHw].
+    exists (S (S (fa + fb + fw))). intros [|[|f]] L; try lia.
+    rewrite eval_S_binary, (IHa (S f)), (IHb (S f)) by lia. rewrite HN.
+    transitivity (eval_binary (S f) s2 "do" (RSwitch v) (RCode body) (in_scope_f (S f)) plain_scope_f); [reflexivity|].
+    rewrite eval_binary_switch. change (push_scope s2 (plain_scope_f s2 [])) with (enter s2 []). rewrite (IHw f) by lia.
+    cbn [switch_after]. rewrite pop_enter. destruct HT as [-> | ->]; reflexivity.
+  - (* switch v do {..}, the chosen block runs *) intros s n a b v body s1 s2 sw t ts reg s4 HN HA [fa IHa] HB [fb IHb] HW HT LF HK [fk IHk].
+    destruct (switch_body_ref _ _ _ _ HW) as [fw IHw].
+    exists (S (S (fa + fb + fw + fk))). intros [|[|f]] L; try lia.
+    rewrite eval_S_binary, (IHa (S f)), (IHb (S f)) by lia. rewrite HN.
+    transitivity (eval_binary (S f) s2 "do" (RSwitch v) (RCode body) (in_scope_f (S f)) plain_scope_f); [reflexivity|].
+    rewrite eval_binary_switch. change (push_scope s2 (plain_scope_f s2 [])) with (enter s2 []). rewrite (IHw f) by lia.
+    cbn [switch_after]. rewrite HT. rewrite (IHk f) by lia. cbn [oc]. destruct reg; reflexivity.
   - (* no elements *) intros s. exists 0. intros f _ acc. cbn. rewrite app_nil_r. reflexivity.
   - (* elements *) intros s e v s1 l vs s2 HE [fe IHe] NN HL [fl IHl]. exists (fe + fl). intros f L acc.
     cbn [go_arr]. rewrite (IHe f) by lia. fold (go_arr f).
@@ -3098,7 +3723,7 @@ Proof.
     + rewrite (IHl f) by lia. cbn [rev]. rewrite <- app_assoc. reflexivity.
   - (* expression statement *) intros s reg e v s1 HE [fe IHe]. exists fe. intros f L rest. cbn [eval_block]. rewrite (IHe f L).
     pose proof (zev_not_none _ _ _ _ HE) as NN. unfold cont. destruct v; try contradiction; reflexivity.
-  - (* assignment *) intros s reg n e v s1 NN HE [fe IHe] NV. exists fe. intros f L rest. cbn [eval_block]. rewrite (IHe f L).
+  - (* assignment *) intros s reg n e v s1 NN HH HE [fe IHe] NV. exists fe. intros f L rest. cbn [eval_block]. rewrite (IHe f L).
     destruct NV as [A1 A2]. unfold cont. destruct v; try contradiction; reflexivity.
   - (* private *) intros s reg n e v s1 NN HE [fe IHe] NV. exists fe. intros f L rest. cbn [eval_block]. rewrite (IHe f L).
     destruct NV as [A1 A2]. unfold cont. destruct v; try contradiction; reflexivity.
@@ -3127,12 +3752,12 @@ Proof.
     intros f L [|kk] LK; [lia|]. cbn [iterate_f]. fold (iterate_f f). rewrite kvars_iter.
     change (push_scope s (plain_scope_f s (kvars k i x))) with (enter s (kvars k i x)).
     rewrite (IHb f) by lia. reflexivity.
-  - (* a round of for, then the rest *) intros var to st s x first body reg s1 y acc' s' HB [fb IHb] TV BY HI (fi & ki & IHi). exists (fb + fi), (S ki).
+  - (* a round of for, then the rest *) intros var to st s x first body reg s1 y acc' s' HB [fb IHb] HV TV BY HI (fi & ki & IHi). exists (fb + fi), (S ki).
     intros f L [|k] LK; [lia|]. cbn [for_loop_f]. fold (for_loop_f f var to st body).
     change (push_scope s (plain_scope_f s [(lower var, RNum x)])) with (enter s [(lower var, RNum x)]).
     rewrite (IHb f) by lia. cbn [oc]. unfold top_var in TV. destruct (st_scopes s1) as [|sc scs] eqn:ES; [discriminate TV|]. rewrite TV.
     unfold beyond in BY. cbv zeta. rewrite BY. apply IHi; lia.
-  - (* the last round of for *) intros var to st s x first body reg s1 y HB [fb IHb] TV BY. exists fb, 1.
+  - (* the last round of for *) intros var to st s x first body reg s1 y HB [fb IHb] HV TV BY. exists fb, 1.
     intros f L [|k] LK; [lia|]. cbn [for_loop_f]. fold (for_loop_f f var to st body).
     change (push_scope s (plain_scope_f s [(lower var, RNum x)])) with (enter s [(lower var, RNum x)]).
     rewrite (IHb f) by lia. cbn [oc]. unfold top_var in TV. destruct (st_scopes s1) as [|sc scs] eqn:ES; [discriminate TV|]. rewrite TV.
